@@ -720,6 +720,14 @@ func (lb *LoadBalancer) refreshBackendHealth() {
 	}
 }
 
+// handlerTimeout returns the configured end-to-end handler timeout (default 30s)
+func (lb *LoadBalancer) handlerTimeout() time.Duration {
+	if lb.config != nil && lb.config.Server.Timeouts.Handler > 0 {
+		return time.Duration(lb.config.Server.Timeouts.Handler) * time.Second
+	}
+	return 30 * time.Second
+}
+
 // proxyRequest forwards the request to a backend and handles the response
 func (lb *LoadBalancer) proxyRequest(backend *Backend, w http.ResponseWriter, r *http.Request, startTime time.Time) error {
 	// Track the active connection
@@ -750,6 +758,13 @@ func (lb *LoadBalancer) proxyRequest(backend *Backend, w http.ResponseWriter, r 
 	}()
 
 	// Forward the request to the selected backend
+	if handlerTimeout := lb.handlerTimeout(); handlerTimeout > 0 && r.Header.Get("Upgrade") == "" {
+		// End-to-end handler timeout (server.timeouts.handler): bounds the whole exchange with the
+		// backend, including a response body that stalls after the header has been received
+		ctx, cancel := context.WithTimeout(r.Context(), handlerTimeout)
+		defer cancel()
+		r = r.WithContext(ctx)
+	}
 	backend.ReverseProxy.ServeHTTP(rw, r)
 	completed = true
 
